@@ -105,10 +105,11 @@ theorem C13_cache_kind_irrelevant (ds : Dataset) (hist1 hist2 : List Request) (r
 
 /-- structural facts the model rests on, read off the current source by the translator: one
     `Calculator` per handler invocation, the cache reached only through `get`/`set`, no static
-    state in the calculator -/
+    state in the calculator, no data member in the geography filters the requests share (the model's
+    walking router is a function of the dataset only) -/
 theorem C13_structure :
     (["handler_route_own_calculator", "handler_summary_own_calculator", "handler_accessibility_own_calculator",
-      "cache_touched_only_via_get_set", "no_static_state_in_calculator"].all
+      "cache_touched_only_via_get_set", "no_static_state_in_calculator", "geofilters_are_stateless"].all
         fun k => Gen.facts.lookup k == some true) = true := by decide
 
 /-- non-vacuity: a history that really fills and replaces the cache -/
